@@ -1,3 +1,4 @@
+\* quick, storage and notification shapes: 2 contracts, call depth 2, 6 statements, 1 TRY level, 1 subroutine level (VIEW hides the tree)
 SPECIFICATION Spec
 CONSTANTS
   NC = 2
